@@ -5,7 +5,7 @@ use swiftness_air::{
         config::Config as TraceConfigVerifier, Decommitment as TraceDecommitmentVerifier,
         UnsentCommitment as TraceUnsentCommitmentVerifier, Witness as TraceWitnessVerifier,
     },
-    types::{AddrValue, Page, SegmentInfo as SegmentInfoVerifier},
+    types::{AddrValue, ContinuousPageHeader, Page, SegmentInfo as SegmentInfoVerifier},
 };
 use swiftness_commitment::{
     table::{
@@ -134,7 +134,17 @@ impl TransformTo<PublicInputVerifier> for stark_proof::PublicInput {
             padding_addr: self.padding_addr.into(),
             padding_value: self.padding_value.into(),
             main_page: Page(self.main_page.into_iter().map(|x| x.transform_to()).collect()),
-            continuous_page_headers: vec![],
+            // Four values per page: start address, size, hash, product.
+            continuous_page_headers: self
+                .continuous_page_headers
+                .chunks_exact(4)
+                .map(|h| ContinuousPageHeader {
+                    start_address: h[0].clone().into(),
+                    size: h[1].clone().into(),
+                    hash: h[2].clone().into(),
+                    prod: h[3].clone().into(),
+                })
+                .collect(),
         }
     }
 }
